@@ -28,6 +28,7 @@ type Link struct {                        // <a>
 	Title *Title
 	Form  int // 0 inline, 1 full ref, 2 collapsed, 3 shortcut
 	Label string
+	LabelNL bool // full reference: the label may be spelled with a line break
 }
 type Image struct {
 	C     []Inline
